@@ -151,12 +151,18 @@ class InRamPolicySupporter(policy_supporter.PolicySupporter):
 
   def _UpdateMetadata(self, delta: vz.MetadataDelta) -> None:
     """Assign metadata to trials."""
+    # Check every trial id first, so that a delta naming a bad or missing trial
+    # is refused as a whole instead of being applied in part.
+    for tid in delta.on_trials:
+      if not tid > 0:
+        raise ValueError(f'Bad Trial Id: {tid}')
+      if tid not in self._trials:
+        raise KeyError(tid)
+
     for ns in delta.on_study.namespaces():
       self.study_config.metadata.abs_ns(ns).update(delta.on_study.abs_ns(ns))
 
     for tid, metadatum in delta.on_trials.items():
-      if not tid > 0:
-        raise ValueError(f'Bad Trial Id: {tid}')
       for ns in metadatum.namespaces():
         self._trials[tid].metadata.abs_ns(ns).update(metadatum.abs_ns(ns))
 
